@@ -828,3 +828,62 @@ Proof.
   intros k Hk t Hg. apply (reject_yaml_sk k Hk yw_defn yw_opts t yw_garbage Hg).
   intros x Hx. apply (garbage_rejectable t Hg x Hx).
 Qed.
+
+(* acceptance, for every option set: a well-formed definition without trait cells, without reserved names and
+   (under -caseInsensitive) without names that differ only by case is generated — with or without -disableTraits *)
+Lemma gen_total_nocells : forall d o, wf_defn d -> d_consts d <> [] ->
+  existsb (fun c => reserved_name o (c_name c)) (d_consts d) = false ->
+  (o_ci o = true -> NoDup (map (fun c => to_lower (c_name c)) (d_consts d))) ->
+  forallb (fun c => Nat.eqb (length (c_cells c)) 0) (d_consts d) = true ->
+  exists t, gen d o = Built t.
+Proof.
+  intros d o Hwf Hne Hres Hlow Hcells. unfold gen.
+  pose proof (sort_values_perm (d_consts d)) as Hperm. unfold gvals in Hperm.
+  assert (Hr : existsb (fun v => reserved_name o (g_name v)) (sort_values (d_consts d)) = false).
+  { rewrite (existsb_perm _ _ _ Hperm). rewrite <- Hres. clear.
+    induction (d_consts d) as [|c r IH]; simpl; [reflexivity|]. rewrite IH. reflexivity. }
+  assert (Hnocells : forall v, In v (sort_values (d_consts d)) -> g_cells v = []).
+  { intros v Hv. apply (Permutation.Permutation_in _ Hperm) in Hv. apply in_map_iff in Hv. destruct Hv as [c [<- Hc]].
+    rewrite forallb_forall in Hcells. specialize (Hcells c Hc). cbn [to_gvalue g_cells].
+    destruct (c_cells c); [reflexivity|discriminate]. }
+  assert (Hci : o_ci o && negb (str_nodupb (map (fun v => to_lower (g_name v)) (sort_values (d_consts d)))) = false).
+  { destruct (o_ci o) eqn:E; [|reflexivity]. simpl. apply negb_false_iff. apply str_nodupb_NoDup.
+    eapply Permutation.Permutation_NoDup; [|exact (Hlow eq_refl)].
+    apply Permutation.Permutation_sym.
+    eapply Permutation.perm_trans; [apply Permutation.Permutation_map; exact Hperm|].
+    rewrite map_map. apply Permutation.Permutation_refl. }
+  assert (HN : NoDup (map g_name (sort_values (d_consts d)))).
+  { destruct Hwf as [_ [_ Hnd]]. eapply Permutation.Permutation_NoDup; [|exact Hnd].
+    apply Permutation.Permutation_sym.
+    eapply Permutation.perm_trans; [apply Permutation.Permutation_map; exact Hperm|].
+    rewrite map_map. apply Permutation.Permutation_refl. }
+  revert Hr Hnocells Hci HN.
+  destruct (sort_values (d_consts d)) as [|f r] eqn:E.
+  - intros _ _ _ _. exfalso. apply Hne. pose proof (sort_values_length (d_consts d)) as HL. rewrite E in HL.
+    destruct (d_consts d); [reflexivity|discriminate].
+  - intros Hr Hnocells Hci HN. rewrite Hr, Hci.
+    assert (Hb : build_ok o (f :: r) [] = true).
+    { unfold build_ok. cbn [forallb map str_nodupb andb]. rewrite andb_true_r.
+      apply andb_true_iff. split.
+      - revert HN. generalize (f :: r). intros l HN.
+        assert (forall l, flat_map (case_consts []) l = map (fun g => DStr (g_name g)) l) as Hfm.
+        { induction l0; simpl; [reflexivity|]. rewrite IHl0. reflexivity. }
+        rewrite Hfm. induction l as [|a l IH]; [reflexivity|].
+        simpl. inversion HN; subst. rewrite IH by assumption. rewrite andb_true_r.
+        apply negb_true_iff. destruct (existsb (dyn_eqb _) _) eqn:Ex; [|reflexivity].
+        exfalso. apply existsb_exists in Ex. destruct Ex as [y [Hy Hey]].
+        apply in_map_iff in Hy. destruct Hy as [g [<- Hgin]].
+        unfold dyn_eqb, DStr in Hey. simpl in Hey. apply String.eqb_eq in Hey.
+        apply H1. rewrite Hey. apply in_map. assumption.
+      - destruct (o_ci o); [|reflexivity]. simpl in Hci. apply negb_false_iff in Hci. simpl. exact Hci. }
+    assert (Hmk : exists t, mk_tables d o (f :: r) [] = Built t).
+    { unfold mk_tables. rewrite Hb. eexists; reflexivity. }
+    destruct (o_notraits o); [exact Hmk|].
+    assert (Hnc : existsb (fun v => existsb (fun c => reserved_cell_var (cl_var c)) (g_cells v)) (f :: r) = false).
+    { clear - Hnocells. induction (f :: r) as [|a l IH]; [reflexivity|]. simpl.
+      rewrite (Hnocells a (or_introl eq_refl)). simpl. apply IH. intros v Hv. apply Hnocells. right. exact Hv. }
+    rewrite Hnc. rewrite (Hnocells f (or_introl eq_refl)). cbn [first_columns length Nat.eqb].
+    assert (Hall : forallb (fun v => Nat.eqb (length (g_cells v)) 0) (f :: r) = true).
+    { apply forallb_forall. intros v Hv. rewrite (Hnocells v Hv). reflexivity. }
+    rewrite Hall. exact Hmk.
+Qed.
